@@ -9,9 +9,10 @@
 //!
 //! Event:
 //!   {"ev":"lift","arch":A,"intr":0|1,"addr":"<hex>","bytes":"<hex>","kind":K,
-//!    "lab":[{"mn":..,"ops":..,"form":..}],                 labelling disassembly (never judged)
+//!    "lab":[{"mn":..,"ops":..,"form":..,"o":offset}],      labelling disassembly (never judged)
 //!    "res":{"err":name} | {"panic":msg} | {"timeout":ms} |
-//!          {"ok":{"ins":[{"blocks":[{"i":n,"ops":[op]}],"edges":[{"h","t","c"}],"entry":n,"exit":n}],
+//!          {"ok":{"n":number of instruction graphs returned,
+//!                 "ins":[{"off":k,"blocks":[{"i":n,"ops":[op]}],"edges":[{"h","t","c"}],"entry":n,"exit":n}],
 //!                 "succ":[{"c":expr|{"k":"none"}}]}},
 //!    "loc":{"file":..,"line":n,"fn":..}                     only for panics (from the panic hook)
 //!    "culprit":{"i":k,"mn":..,"ops":..,"form":..,"bytes":..} only for panic/timeout: first single
@@ -20,9 +21,11 @@
 //!                                                           occurring in guards (only when they
 //!                                                           mention more than 12 bits)
 //!
-//! Events with an `ok` result are de-duplicated by IL *shape* (everything the specification looks
-//! at: structure, widths, guards and successor conditions in full; constants and scalar names
-//! outside guards are blanked in the key only).  `err` events are capped per error name.  Counts
+//! `ok` results are de-duplicated by IL *shape* per instruction graph (everything the specification
+//! looks at: structure, widths, guards in full; constants and scalar names outside guards are
+//! blanked in the key only): "ins" lists only the graphs whose shape this process has not logged
+//! before ("off" = offset of the native instruction in the bytes), and an event with no new graph
+//! and an already seen successor list is not logged.  `err` events are capped per error name.  Counts
 //! of everything lifted go to FILE.stats.json.  A timed-out lift leaks its thread: the recorder
 //! then re-executes itself and continues after that case.
 
@@ -106,8 +109,8 @@ struct Label {
 }
 
 impl Label {
-    fn json(&self) -> Value {
-        json!({"mn": self.mn, "ops": self.ops, "form": self.form})
+    fn json(&self, off: usize) -> Value {
+        json!({"mn": self.mn, "ops": self.ops, "form": self.form, "o": off})
     }
 }
 
@@ -232,16 +235,23 @@ fn proj_cfg(g: &il::ControlFlowGraph) -> Value {
     })
 }
 
-fn proj_result(r: &BlockTranslationResult) -> Value {
+fn proj_result(r: &BlockTranslationResult, base: u64) -> Value {
     json!({
-        "ins": r.instructions().iter().map(|(_, g)| proj_cfg(g)).collect::<Vec<_>>(),
+        "n": r.instructions().len(),
+        "ins": r.instructions().iter().map(|(a, g)| {
+            // offset of the native instruction inside the lifted bytes (labelling only)
+            let off = a.wrapping_sub(base);
+            let mut v = proj_cfg(g);
+            v["off"] = json!(if off < (1 << 20) { off as i64 } else { -1 });
+            v
+        }).collect::<Vec<_>>(),
         "succ": r.successors().iter().map(|(_, c)| json!({"c": proj::opt_expr(c.as_ref())})).collect::<Vec<_>>(),
     })
 }
 
-/// the de-duplication key: the projection with constants and scalar names blanked outside
-/// guards / successor conditions (the specification only looks at widths there)
-fn shape_key(ok: &Value) -> String {
+/// the de-duplication key of one instruction graph: the projection with constants and scalar
+/// names blanked outside guards (the specification only looks at widths there)
+fn shape_key(g: &Value) -> String {
     fn blank(v: &Value) -> Value {
         match v {
             Value::Object(m) => {
@@ -253,7 +263,7 @@ fn shape_key(ok: &Value) -> String {
                         o.insert(k.clone(), json!(0));
                     } else if k == "n" && m.get("k").map(|k| k == "scalar").unwrap_or(false) {
                         o.insert(k.clone(), json!(""));
-                    } else if k == "mn" {
+                    } else if k == "mn" || k == "off" {
                         o.insert(k.clone(), json!(""));
                     } else {
                         o.insert(k.clone(), blank(x));
@@ -265,8 +275,14 @@ fn shape_key(ok: &Value) -> String {
             x => x.clone(),
         }
     }
-    let ins = blank(&ok["ins"]);
-    format!("{}|{}", ins, ok["succ"])
+    blank(g).to_string()
+}
+
+fn hash_key(key: &str) -> String {
+    use std::hash::{Hash, Hasher};
+    let mut s = std::collections::hash_map::DefaultHasher::new();
+    key.hash(&mut s);
+    format!("{:016x}{:x}", s.finish(), key.len())
 }
 
 // scalars occurring in guards and successor conditions
@@ -415,6 +431,10 @@ struct Recorder {
 }
 
 impl Recorder {
+    fn bump_by(&mut self, key: String, n: u64) {
+        *self.stats.entry(key).or_insert(0) += n;
+    }
+
     fn bump(&mut self, key: String) -> u64 {
         let c = self.stats.entry(key).or_insert(0);
         *c += 1;
@@ -432,20 +452,28 @@ impl Recorder {
         match &r {
             Outcome::Ok(res) => {
                 self.bump(format!("ok:{}", c.arch));
-                let ok = proj_result(res);
+                let mut ok = proj_result(res, c.addr);
                 if self.dedupe {
-                    let key = format!("{}|{}|{}", c.arch, intr, shape_key(&ok));
-                    let h = {
-                        use std::hash::{Hash, Hasher};
-                        let mut s = std::collections::hash_map::DefaultHasher::new();
-                        key.hash(&mut s);
-                        format!("{:016x}{:x}", s.finish(), key.len())
-                    };
-                    if !self.seen.insert(h) {
+                    // keep only instruction graphs whose shape has not been logged by this
+                    // process; drop the event when nothing in it is new
+                    let graphs = ok["ins"].as_array().unwrap().clone();
+                    let mut fresh = Vec::new();
+                    for g in graphs {
+                        let h = hash_key(&format!("G|{}|{}", c.arch, shape_key(&g)));
+                        if self.seen.insert(h) {
+                            fresh.push(g);
+                        } else {
+                            self.bump("deduped_graphs".into());
+                        }
+                    }
+                    let succ_new = self.seen.insert(hash_key(&format!("S|{}|{}", c.arch, ok["succ"])));
+                    if fresh.is_empty() && !succ_new {
                         self.bump("deduped_ok".into());
                         return;
                     }
+                    ok["ins"] = Value::Array(fresh);
                 }
+                self.bump_by("graphs_logged".into(), ok["ins"].as_array().unwrap().len() as u64);
                 ev["rv"] = random_valuations(&mut self.rng, &ok, 24);
                 ev["res"] = json!({ "ok": ok });
             }
@@ -472,13 +500,19 @@ impl Recorder {
             }
         }
         let labels = label(c.arch, &c.bytes, c.addr);
-        ev["lab"] = Value::Array(labels.iter().map(|l| l.json()).collect());
+        let mut lab_off = 0usize;
+        let mut labs = Vec::new();
+        for l in &labels {
+            labs.push(l.json(lab_off));
+            lab_off += l.size;
+        }
+        ev["lab"] = Value::Array(labs);
         if matches!(r, Outcome::Panic(_)) {
             // which single instruction fails alike when lifted alone (recorded observation)
             let class = outcome_class(&r, &loc);
             let mut off = 0usize;
             let mut culprit = json!({"i": -1});
-            if self.dedupe {
+            {
                 for (i, l) in labels.iter().enumerate() {
                     if l.size == 0 || off + l.size > c.bytes.len() {
                         break;
@@ -558,6 +592,12 @@ fn corpus_cases(dir: &str, arch: &'static str, rng: &mut Rng) -> Vec<Case> {
             // followed by another template
             let mut b = ins.clone();
             b.extend(rng.pick(&corpus).clone());
+            if arch.starts_with("mips") {
+                // e.g. a branch in the delay slot of a branch, followed by its own delay slot
+                let mut b3 = b.clone();
+                b3.extend(nop_bytes(arch));
+                out.push(Case { arch, intr, addr: ADDRS[(k + 2) % 4], bytes: b3, kind: "corpus+corpus+nop" });
+            }
             out.push(Case { arch, intr, addr: ADDRS[(k + 1) % 4], bytes: b, kind: "corpus+corpus" });
         }
     }
@@ -635,6 +675,9 @@ fn random_case(rng: &mut Rng, arch: &'static str, corpus: &[Vec<u8>]) -> Case {
                 let mut b = to_bytes(m);
                 if arch.starts_with("mips") && rng.chance(1, 2) {
                     b.extend(if rng.bool() { vec![0, 0, 0, 0] } else { rng.pick(corpus).clone() });
+                    if rng.chance(1, 3) {
+                        b.extend(vec![0, 0, 0, 0]); // e.g. branch, branch, nop
+                    }
                 }
                 (b, "word-mutated")
             }
